@@ -167,5 +167,81 @@ def run_wal_obligations(ck, ex, sc, K, LENS, walname, setup=None):
                                            lambda m, w: key)
     if torn_reached == 0:
         ck.inconclusive.append('vacuous: no crash offset strictly inside a record was explored')
+    run_double_crash(ck, ex, sc, LENS[:1] if ck.tier == 'quick' else LENS, walname)
     ck.notes.append(f'{torn_reached} crash offsets strictly inside a record')
 
+
+
+def run_double_crash(ck, ex, sc, LENS, walname):
+    """W5: two successive crashes with a write in between - record 1, crash at every byte of it, recover,
+    append record 2, crash at every byte of *that* record, recover again, append record 3 (acknowledged), clean restart:
+    replay = the survivors of both crashes followed by record 3."""
+    ck.declare('W5_two_crashes', 'record r1, crash at every byte of it; recover; append r2, crash at every byte of it; recover; append r3; restart',
+               'the final replay is Ok and is exactly [r1 if whole] ++ [r2 if whole] ++ [r3]')
+    n5 = 0
+    for L in LENS:
+        st = ex.new_state()
+        st.env['codec_len'] = L
+        for i in (1, 2, 3):
+            st.roots[f'r{i}'] = st.fresh(sc.entry_ty, f'r{i}')
+        opened = sc.open(st, 'W5 initial')
+        if len(opened) != 1 or opened[0][1] is None:
+            ck.inconclusive.append('W5: initial open failed')
+            continue
+        cur = opened[0][0]
+        len0 = len(sc.file(cur).data)
+        outs = [o for o in sc.append(cur, cur.roots['r1'], 'W5 r1') if o[1] is None]
+        if len(outs) != 1:
+            ck.inconclusive.append('W5: append r1 failed')
+            continue
+        cur = outs[0][0]
+        len1 = len(sc.file(cur).data)
+        for cut1 in range(len0, len1 + 1):
+            keep1 = cut1 == len1
+            for (s1, wp1, e1) in sc.open(sc.crash(cur, cut1), f'W5 reopen1 cut={cut1 - len0}'):
+                wit0 = {'wal': walname + '-double', 'payload_len': L, 'cut1': cut1 - len0, 'frame_len': len1 - len0}
+                if wp1 is None:
+                    ck.require(ex, 'W5_two_crashes', s1.pc, None, z3.BoolVal(False), lambda m, w=dict(wit0, stage='reopen1'): w, lambda m, w: 'double-crash')
+                    continue
+                base = len(sc.file(s1).data)
+                for (s2, e2) in sc.append(s1, s1.roots['r2'], 'W5 r2'):
+                    if e2 is not None:
+                        ck.require(ex, 'W5_two_crashes', s2.pc, None, z3.BoolVal(False), lambda m, w=dict(wit0, stage='append2', outcome=e2): w, lambda m, w: 'double-crash')
+                        continue
+                    len2 = len(sc.file(s2).data)
+                    for cut2 in range(base, len2 + 1):
+                        keep2 = cut2 == len2
+                        for (s3, wp3, e3) in sc.open(sc.crash(s2, cut2), 'W5 reopen2'):
+                            wit = dict(wit0, cut2=cut2 - base)
+                            if wp3 is None:
+                                ck.require(ex, 'W5_two_crashes', s3.pc, None, z3.BoolVal(False), lambda m, w=dict(wit, stage='reopen2'): w, lambda m, w: 'double-crash')
+                                continue
+                            for (s4, e4) in sc.append(s3, s3.roots['r3'], 'W5 r3'):
+                                if e4 is not None:
+                                    ck.require(ex, 'W5_two_crashes', s4.pc, None, z3.BoolVal(False), lambda m, w=dict(wit, stage='append3', outcome=e4): w, lambda m, w: 'double-crash')
+                                    continue
+                                for (s5, wp5, e5) in sc.open(sc.crash(s4, len(sc.file(s4).data)), 'W5 reopen3'):
+                                    if wp5 is None:
+                                        ck.require(ex, 'W5_two_crashes', s5.pc, None, z3.BoolVal(False), lambda m, w=dict(wit, stage='reopen3'): w, lambda m, w: 'double-crash')
+                                        continue
+                                    want = (['r1'] if keep1 else []) + (['r2'] if keep2 else []) + ['r3']
+                                    for (r6, got, e6) in sc.replay(s5, 'W5 replay'):
+                                        good = e6 is None and entries_are(r6.st, got, want)
+                                        ck.require(ex, 'W5_two_crashes', r6.pc, None, z3.BoolVal(good),
+                                                   lambda m, w=dict(wit, stage='replay', outcome=e6 or [getattr(g, 'lazy', None) for g in got], want=want): w, lambda m, w: 'double-crash')
+                                        n5 += 1
+    if n5 == 0:
+        ck.inconclusive.append('vacuous: W5 never instantiated')
+    ck.notes.append(f'W5: {n5} double-crash scenarios')
+
+
+def double_crash_replay(w):
+    """native confirmation of a W5 witness: which of r1 r2 r3 the real log returns after the two cuts"""
+    rep = Replay.call({'op': 'wal_double', 'wal': w['wal'], 'cut1': w.get('cut1', 0), 'cut2': w.get('cut2', 0), 'frame_len': w.get('frame_len', 10)})
+    want = []
+    if w.get('cut1', 0) >= w.get('frame_len', 10):
+        want.append(1)
+    if w.get('cut2', 0) >= w.get('frame_len', 10):
+        want.append(2)
+    want.append(3)
+    return rep, bool(rep.get('errors')) or rep.get('present') != want
